@@ -29,6 +29,8 @@ type ReusedAttr struct {
 	Path []string // keys of the enclosing keyed groups, outermost first, then "seq"
 	N    *atomic.Int64
 	Desc string
+
+	shape reusedShape
 }
 
 func GenReusedAttr() *rapid.Generator[*ReusedAttr] {
@@ -36,7 +38,8 @@ func GenReusedAttr() *rapid.Generator[*ReusedAttr] {
 		r := &ReusedAttr{N: &atomic.Int64{}}
 		var leaf slog.Attr
 		var path []string
-		if rapid.IntRange(0, 3).Draw(t, "resolvesToAGroup") == 0 {
+		var shape reusedShape
+		if shape.group = rapid.IntRange(0, 3).Draw(t, "resolvesToAGroup") == 0; shape.group {
 			leaf = slog.Any("v", seqGroupValuer{r.N})
 			path = []string{"v", "seq"}
 		} else {
@@ -52,7 +55,9 @@ func GenReusedAttr() *rapid.Generator[*ReusedAttr] {
 				key = ""
 			}
 			members := []any{attr}
-			switch rapid.IntRange(0, 2).Draw(t, "position") {
+			position := rapid.IntRange(0, 2).Draw(t, "position")
+			shape.levels = append(shape.levels, reusedLevel{key, position})
+			switch position {
 			case 0:
 				members = []any{attr, slog.String(fmt.Sprintf("after%d", d), "x")}
 			case 1:
@@ -66,6 +71,41 @@ func GenReusedAttr() *rapid.Generator[*ReusedAttr] {
 		}
 		r.Attr, r.Path = attr, path
 		r.Desc = "groups " + strings.Join(desc, " > ") + " path " + strings.Join(path, ".")
+		r.shape = shape
 		return r
 	})
+}
+
+// Fresh builds another attribute value of the same shape whose deferred value will next resolve to next: what a
+// program that builds the attribute anew for every record hands to the logger.
+func (r *ReusedAttr) Fresh(next int64) slog.Attr {
+	n := &atomic.Int64{}
+	n.Store(next - 1)
+	var attr slog.Attr
+	if r.shape.group {
+		attr = slog.Any("v", seqGroupValuer{n})
+	} else {
+		attr = slog.Any("seq", SeqValuer{n})
+	}
+	for d, lv := range r.shape.levels {
+		members := []any{attr}
+		switch lv.position {
+		case 0:
+			members = []any{attr, slog.String(fmt.Sprintf("after%d", d), "x")}
+		case 1:
+			members = []any{slog.Int(fmt.Sprintf("before%d", d), d), attr, slog.String(fmt.Sprintf("after%d", d), "x")}
+		}
+		attr = slog.Group(lv.key, members...)
+	}
+	return attr
+}
+
+type reusedLevel struct {
+	key      string
+	position int
+}
+
+type reusedShape struct {
+	group  bool
+	levels []reusedLevel
 }
